@@ -31,7 +31,8 @@ COMPONENTS = {
              "cwl_utils expression evaluation with a real node process", "real /bin/echo and /bin/cat job processes"],
     "stub": ["aiosqlite thread -> FIFO server", "run_in_subprocess seam (real child at a simulator-chosen instant)", "reference: cwltool in a helper process (oracle, not under test)"],
 }
-ASSUMPTIONS = ["the feature set is the grammar above (listed per production in probes grammar.*); loops (cwltool:Loop / v1.3 loop), records, Directory values, secondaryFiles, "
+ASSUMPTIONS = ["a run that exhausts its wall-clock cap (300 s; documents with hundreds of process-spawning jobs on a loaded machine) or whose reference run is too slow is counted as undecided (probes wall_timeout_undecided, reference.timeout, reference.too_slow), never as a violation and never as evidence",
+               "the feature set is the grammar above (listed per production in probes grammar.*); loops (cwltool:Loop / v1.3 loop), records, Directory values, secondaryFiles, "
                "InitialWorkDirRequirement and container requirements are not generated",
                "two failing runs are considered equal whatever their messages"]
 # grammar 2 = grammar 1 + tool-level defaults, valueFrom reading another input, arrays of optional ints; runs without the
@@ -39,7 +40,8 @@ ASSUMPTIONS = ["the feature set is the grammar above (listed per production in p
 TIERS = {"quick": {"runs": 160, "budget_s": 75, "chunk": 2, "params": {"grammar": 2}}, "thorough": {"runs": 20000, "budget_s": 900, "chunk": 2, "params": {"grammar": 2}}}
 # one run spawns up to a few hundred real processes (node, /bin/echo, /bin/cat): on a loaded machine a chunk may need minutes
 STALL_S = 900
-SIM_KW = {"max_steps": 3_000_000, "wall_cap": 120.0, "max_vtime": 1e7}
+WALL_TIMEOUT = "undecided"
+SIM_KW = {"max_steps": 3_000_000, "wall_cap": 300.0, "max_vtime": 1e7}
 
 
 def first_diff(a, b, path="$"):
@@ -162,6 +164,11 @@ def run(sim, params):
     for f in gen["used"]:
         sim.probe("grammar." + f)
     sim.probe("reference." + ref[0])
+    if ref[0] != "timeout" and cwlref.last_seconds > 20.0:
+        # hundreds of process-spawning jobs (cross products of long arrays): the two simulated runs would not fit the
+        # wall-clock budget of one run on a loaded machine
+        sim.probe("reference.too_slow")
+        ref = ("timeout", None)
     if ref[0] == "timeout":
         # the document is too expensive for one simulated run: not decided, counted
         return {"nontrivial": False, "sig": zlib.crc32(canon(gen["doc"]).encode()), "sample": {"features": gen["used"], "reference": "timeout"}}
